@@ -65,7 +65,7 @@ def main():
             o = "(-2)%Z"
         else:
             o = vplib.zlit(int(out[0]))
-        return vplib.coq_list([vplib.zlit(x) for x in case]), o
+        return "(%s : list Z)" % vplib.coq_list([vplib.zlit(x) for x in case]), o
 
     vplib.correspondence(
         c, "ntp-proto", cases,
